@@ -61,9 +61,13 @@ class _Walker:
             self.reads(ch, defined)
 
     def block(self, stmts, defined):
+        """returns the names definitely assigned after the block, or None if the block never falls
+        through (ends in continue / break / raise / return)"""
         defined = set(defined)
         for st in stmts:
             defined = self.stmt(st, defined)
+            if defined is None:
+                return None
         return defined
 
     def stmt(self, st, defined):
@@ -87,6 +91,10 @@ class _Walker:
             self.reads(st.test, defined)
             d1 = self.block(st.body, defined)
             d2 = self.block(st.orelse, defined)
+            if d1 is None:
+                return d2
+            if d2 is None:
+                return d1
             return d1 & d2
         if isinstance(st, ast.For):
             self.reads(st.iter, defined)
@@ -94,11 +102,13 @@ class _Walker:
             self.block(st.body, inner)
             self.block(st.orelse, defined)
             return defined
-        if isinstance(st, (ast.Pass, ast.Continue, ast.Break)):
+        if isinstance(st, ast.Pass):
             return defined
+        if isinstance(st, (ast.Continue, ast.Break)):
+            return None
         if isinstance(st, ast.Raise):
             self.reads(st.exc, defined)
-            return defined
+            return None
         self.problems.append(f"line {st.lineno}: statement kind {type(st).__name__} not analysed")
         return defined
 
